@@ -50,7 +50,7 @@ def _mutate(blob: bytes, r: random.Random) -> bytes:
         ph = new.find(P + "nvSpPr/" + P + "nvPr/" + P + "ph")
         idx = r.choice([10, 11, 12, 13, 20, 4294967295, 100])
         while idx in used_idx:
-            idx += 1
+            idx = idx + 1 if idx < 4294967295 else 1000
         used_idx.add(idx)
         ph.set("idx", str(idx))
         t = r.choice(LAYOUT_TYPES)
